@@ -5,9 +5,3 @@ package evm
 // VerifDepth returns the current call depth (number of interpreter frames on the stack). Read-only
 // accessor used by the C20 harness to attribute StateDB snapshots to call frames.
 func (evm *EVM) VerifDepth() int { return evm.depth }
-
-// VerifFees returns copies of the pending fee lists (value-transfer fees charged so far and those already
-// marked refundable), for the C20 gas-conservation oracle.
-func (evm *EVM) VerifFees() (fees, refundFees []uint64) {
-	return append([]uint64{}, evm.fees...), append([]uint64{}, evm.refundFees...)
-}
